@@ -1,3 +1,3 @@
 INIT Init
 NEXT Next
-INVARIANTS C20_TableRefuse C20_TableAccept C20_SetRefused C20_SetAccepted C20_NotOnWire C20_NotDropped C20_HandlerRan
+INVARIANTS C20_TableRefuse C20_TableAccept C20_SetRefused C20_SetAccepted C20_SetAgain C20_NotOnWire C20_NotDropped C20_HandlerRan
